@@ -15,7 +15,7 @@ import (
 // G-conform: a document generated from the policy model's own vocabulary.
 
 var helperSamples = map[string][]string{
-	reLang.String(): {"en", "fr"}, reID.String(): {"id1", "a.b"}, reScope.String(): {"row", "colgroup"}, reNowrap.String(): {"", "nowrap"}, reOpen.String(): {"", "open"},
+	reLang.String(): {"en", "fr", "pt-BR", "zh-Hant-TW", "de-DE-u-co-phonebk", "en-x-legal", "ja-t-it"}, reID.String(): {"id1", "a.b"}, reScope.String(): {"row", "colgroup"}, reNowrap.String(): {"", "nowrap"}, reOpen.String(): {"", "open"},
 	reMapName.String(): {"map1"}, reCoords.String(): {"1,2,3"}, reShape.String(): {"rect"}, reUsemap.String(): {"#map1"},
 }
 
@@ -34,7 +34,7 @@ func samplesFor(r rule) []string {
 	return helperSamples[r.re.String()]
 }
 
-var canonURLs = []string{"http://example.com/a?b=c#d", "https://example.org/", "https://example.org/ok/x", "http://example.org/ok", "mailto:user@example.com", "/path/x.html", "#frag", "//cdn.example.com/x",
+var canonURLs = []string{"http://example.com/?a=1&region=eu&copy=2&lt=3&amp=4", "/shop?lang=en&section=2&notify=1", "http://example.com/a?b=c#d", "https://example.org/", "https://example.org/ok/x", "http://example.org/ok", "mailto:user@example.com", "/path/x.html", "#frag", "//cdn.example.com/x",
 	"ftp://h/f", "x-app://open", "tel:123", "rel/y", "/ok/rel", "sftp://h/p", "data:image/png;base64,iVBORw0KGgo=", "data:image/gif;base64,R0lGODlh"}
 
 // urlConforms: would a conforming document be allowed to use v at a URL-checked position?
